@@ -19,6 +19,7 @@ package config
 //@   ensures [members] forall n string :: (n in result) == old(n in pools && HasSelectors(pools[n]))
 //@   ensures result == nil || fresh(result)
 //@   modifies fresh []string
+//@   loop 1 binds pool
 //@   loop 1 invariant poolsByServiceSelector == nil || fresh(poolsByServiceSelector)
 //@   loop 1 invariant forall n string :: (n in poolsByServiceSelector) == (n in visited && old(HasSelectors(pools[n])))
 //@   loop 1 invariant forall n string :: n in visited ==> n in pools
@@ -37,9 +38,12 @@ package config
 //@   ensures [sorted] forall ns string :: ns in result ==> SortedWeak(result[ns])
 //@   ensures result == nil || fresh(result)
 //@   modifies fresh []string, fresh map[string][]string
+//@   loop 1 binds pool
 //@   loop 1 invariant (poolsForNamespace == nil || fresh(poolsForNamespace)) && DistinctArrays(poolsForNamespace)
+//@   loop 2 binds namespace
 //@   loop 2 invariant (poolsForNamespace == nil || fresh(poolsForNamespace)) && DistinctArrays(poolsForNamespace)
 //@   loop 2 invariant poolsForNamespace != nil || len(pool.ServiceAllocations.Namespaces) == 0
+//@   loop 3 binds names
 //@   loop 3 invariant DistinctArrays(poolsForNamespace)
 //@   loop 3 invariant forall ns string :: ns in visited ==> SortedWeak(poolsForNamespace[ns])
 
@@ -77,6 +81,7 @@ package config
 //@   ensures [canonical] result1 == nil ==> (forall i int :: 0 <= i && i < len(result0) ==> WfCIDR(result0[i]))
 //@   ensures [onefamily] result1 == nil ==> (forall i int, j int :: 0 <= i && i < len(result0) && 0 <= j && j < len(result0) ==> net.is4(result0[i].IP) == net.is4(result0[j].IP))
 //@   modifies fresh []*net.IPNet, fresh *net.IPNet, fresh []string, fresh []interface{}
+//@   loop 1 binds pfx
 //@   loop 1 invariant (ret == nil || fresh(ret)) && len(ret) == iter
 //@   loop 1 invariant forall i int :: 0 <= i && i < len(ret) ==> WfCIDR(ret[i]) && net.is4(ret[i].IP) == net.is4(start)
 
@@ -92,6 +97,7 @@ package config
 //@   ensures [pool] result1 == nil ==> result0 != nil && fresh(result0) && result0.Name == p.Name && p.Name != "" && len(result0.CIDR) >= 1 && AllWf(result0.CIDR)
 //@   ensures result1 != nil ==> result0 == nil
 //@   modifies fresh *Pool, fresh []*net.IPNet, fresh *net.IPNet, fresh []string, fresh []interface{}, fresh map[string][]*net.IPNet, fresh *ServiceAllocation, fresh map[string]sets.Empty, fresh []labels.Selector
+//@   loop 1 binds cidr
 //@   loop 1 invariant ret != nil && fresh(ret) && ret.Name == p.Name && p.Name != "" && ret.cidrsPerAddresses != nil && fresh(ret.cidrsPerAddresses) && (ret.CIDR == nil || fresh(ret.CIDR)) && AllWf(ret.CIDR) && (iter > 0 ==> len(ret.CIDR) >= 1)
 
 // the attachment of advertisements and the remaining validations do not change pool names or address ranges
@@ -118,8 +124,11 @@ package config
 //@ pred NodeFree(nodes []corev1.Node, c *net.IPNet) := forall k int :: 0 <= k && k < len(k8snodes.NodeIPsForFamily(nodes, FamOfNet(c))) ==> !net.NetContains(*c, k8snodes.NodeIPsForFamily(nodes, FamOfNet(c))[k])
 //@ func poolsFor
 //@   ensures [nodeFree] result1 == nil ==> (forall n string, i int :: (n in result0.ByName) && 0 <= i && i < len(result0.ByName[n].CIDR) ==> NodeFree(resources.Nodes, result0.ByName[n].CIDR[i]))
+//@   loop 1 binds p
 //@   loop 1 invariant forall x *net.IPNet :: (x in allCIDRs) ==> NodeFree(resources.Nodes, x)
+//@   loop 2 binds cidr
 //@   loop 2 invariant forall x *net.IPNet :: (x in allCIDRs) ==> NodeFree(resources.Nodes, x)
+//@   loop 4 binds nodeIP
 //@   loop 4 invariant forall k int :: 0 <= k && k < iter ==> !net.NetContains(*cidr, nodeIps[k])
 //@   loop 4 invariant 0 <= idx(2) && idx(2) < len(pool.CIDR) && cidr == pool.CIDR[idx(2)] && WfCIDR(cidr) && (forall b int :: 0 <= b && b < len(allCIDRs) ==> !Overlap(cidr, allCIDRs[b]))
 //@   ensures [keyed] result1 == nil ==> result0 != nil && result0.ByName != nil && PoolsKeyed(result0.ByName)
@@ -132,6 +141,7 @@ package config
 //@   loop 2 invariant forall n string :: (n in pools) ==> len(pools[n].CIDR) >= 1 && AllWf(pools[n].CIDR) && fresh(pools[n])
 //@   loop 2 invariant pool != nil && fresh(pool) && pool.Name == p.Name && p.Name != "" && len(pool.CIDR) >= 1 && AllWf(pool.CIDR) && !(p.Name in pools)
 //@   loop 2 invariant forall i int :: 0 <= i && i < iter ==> (pool.CIDR[i] in allCIDRs)
+//@   loop 3 binds m
 //@   loop 3 invariant 0 <= idx(2) && idx(2) < len(pool.CIDR) && cidr == pool.CIDR[idx(2)] && WfCIDR(cidr)
 //@   loop 3 invariant forall b int :: 0 <= b && b < iter ==> !Overlap(cidr, allCIDRs[b])
 
@@ -147,6 +157,7 @@ package config
 //@   ensures [attained] len(cidrs) > 0 ==> (exists i int :: 0 <= i && i < len(cidrs) && result == net.maskOnes(cidrs[i].Mask))
 //@   ensures len(cidrs) == 0 ==> result == 0
 //@   modifies nothing
+//@   loop 1 binds c
 //@   loop 1 invariant len(cidrs) > 0 && (forall i int :: 0 <= i && i < iter ==> lowest <= net.maskOnes(cidrs[i].Mask)) && (exists i int :: 0 <= i && i < len(cidrs) && lowest == net.maskOnes(cidrs[i].Mask))
 
 // advertisementsAreCompatible / isAggrLengthDifferent: the local-preference collision rule is not specified here (frame only)
@@ -164,4 +175,5 @@ package config
 //@   requires forall j int :: 0 <= j && j < len(pool.BGPAdvertisements) ==> pool.BGPAdvertisements[j] != nil
 //@   ensures [aggregation] result == nil ==> (forall n string :: (n in pool.cidrsPerAddresses) ==> AggrOK(adv, pool, n))
 //@   modifies fresh []interface{}
+//@   loop 1 binds cidrs
 //@   loop 1 invariant forall n string :: (n in visited) ==> AggrOK(adv, pool, n)
